@@ -182,4 +182,41 @@ def run(ctx):
         if any(b <= a for a, b in zip(starts, starts[1:])) or (starts and starts[0] != 0):
             ctx.violation("wrong-start-index", "task start indices %r" % (starts[:6],), case)
     ctx.counters["run_worker_calls_monitored"] = ctx.n(300, 3000)
+    # ---------------- make_full_samples on a large cache: index arrays whose values need more than 8 / 16 bits ----------------
+    big = JokerSamples()
+    Nbig = 70001
+    big["P"] = (np.arange(Nbig) + 1.0) * u.day
+    big["e"] = np.zeros(Nbig)
+    bpath = os.path.join(ctx.tmpdir, "c16_big.hdf5")
+    big.write(bpath, overwrite=True)
+    for k in range(ctx.n(60, 400)):
+        n = int(rng.choice([2, 5, 40, 300, 2000]))
+        hi = int(rng.choice([300, 3000, 66000, Nbig]))
+        want = rng.choice(hi, size=min(n, hi), replace=False)
+        shape = str(rng.choice(["shuffled", "small-last", "small-first", "sorted"]))
+        if shape == "small-last":
+            j = int(np.argmin(want)); want[[j, -1]] = want[[-1, j]]
+        elif shape == "small-first":
+            j = int(np.argmin(want)); want[[j, 0]] = want[[0, j]]
+        elif shape == "sorted":
+            want = np.sort(want)
+        nb = int(rng.choice([1, 2, 3, 7]))
+        pool = CapturePool()
+        pool.answer = lambda t: np.zeros((len(ident(t)), 2))
+        case = dict(kind="make_full_samples:" + shape, n=int(len(want)), max_index=int(want.max()), last=int(want[-1]), n_batches=nb,
+                    head=want[:6])
+        try:
+            mh.make_full_samples(None, bpath, pool, np.random.default_rng(int(rng.integers(0, 2 ** 31))), want.copy(), n_batches=nb)
+        except Exception:
+            pass        # the pool answers with dummies, unpacking them may fail: only the tasks handed over are judged
+        if pool.tasks is None:
+            ctx.violation("raises", "make_full_samples raised before handing anything to the pool", case)
+            continue
+        ctx.evaluations += 1
+        ctx.count("make_full_samples_calls_monitored")
+        got_tasks = np.concatenate([np.asarray(ident(t), dtype=np.int64) for t in pool.tasks]) if pool.tasks else np.array([])
+        if got_tasks.shape != want.shape or not np.array_equal(got_tasks, want.astype(np.int64)):
+            key = "pool-batches-reordered" if sorted(got_tasks.tolist()) == sorted(want.tolist()) else "pool-batches-wrong-coverage"
+            ctx.violation(key, "make_full_samples: the batches handed to pool.map carry rows %s..., the accepted rows are %s... "
+                          "(max index %d)" % (got_tasks[:6].tolist(), want[:6].tolist(), int(want.max())), case)
 
